@@ -73,7 +73,49 @@ func c09Twins(seed uint32) (a, b []byte) {
 	panic("c09: no murmur twins found")
 }
 
+// Boundary items: an 8-byte item whose MurmurHash3 value under a given seed is EXACTLY k*8L + d for
+// some filter length L <= 36000 bytes (k = 1..3, d = -1, 0, +1): with a filter of L bytes whose hash
+// function has that seed, the value lands on, just below or just above a multiple of the bit count
+// (a reduction that compares with > for >=, or skips the division "when already in range", is wrong
+// only there; about 2^17 hashes per item to find).  Item names "bd<seed hex>_<k>_<d+1>".
+var c09BoundaryCache sync.Map
+
+func c09Boundary(seed uint32, k, d int) (item []byte, L int) {
+	key := fmt.Sprintf("%x_%d_%d", seed, k, d)
+	if v, ok := c09BoundaryCache.Load(key); ok {
+		t := v.(struct {
+			b []byte
+			l int
+		})
+		return t.b, t.l
+	}
+	for i := uint32(0); ; i++ {
+		j := i*2654435761 ^ 0x626f756e
+		b := []byte{byte(i), byte(i >> 8), byte(i >> 16), byte(i >> 24), byte(j), byte(j >> 8), byte(j >> 16), byte(j >> 24)}
+		h := int64(ref.Murmur3(seed, b)) - int64(d)
+		if h > 0 && h%int64(8*k) == 0 && h/int64(8*k) <= 36000 {
+			c09BoundaryCache.Store(key, struct {
+				b []byte
+				l int
+			}{b, int(h / int64(8*k))})
+			return b, int(h / int64(8*k))
+		}
+		if i == 1<<28 {
+			panic("c09: no boundary item found")
+		}
+	}
+}
+
 func c09Item(name string) []byte {
+	if strings.HasPrefix(name, "bd") {
+		var seed uint32
+		var k, d int
+		if n, _ := fmt.Sscanf(name[2:], "%x_%d_%d", &seed, &k, &d); n != 3 {
+			panic("c09: bad boundary item " + name)
+		}
+		b, _ := c09Boundary(seed, k, d-1)
+		return b
+	}
 	if strings.HasPrefix(name, "tw") {
 		var seed uint32
 		fmt.Sscanf(name[2:len(name)-1], "%x", &seed)
@@ -624,6 +666,33 @@ func runC09(c *mc.Ctx) {
 			}
 		}
 		c.Space("histories of <= 3 (4) operations over pairs of items with equal MurmurHash3 under the seed of the filter's first / second hash function", int64(len(hs)))
+		c.ParFor(int64(len(hs)), func(w *mc.W, i int64) {
+			w.State()
+			c09EvalHistory(w, hs[i])
+		})
+	}
+	// (1f) boundary items: the value of one hash function lands exactly on k times the bit count, or
+	// one below / above (see c09Boundary); the filter length is the one the item calls for
+	{
+		var hs []c09History
+		for _, tw := range []uint32{0, 0x5eed0009} {
+			for fn := uint32(0); fn < 2; fn++ {
+				seed := fn*0xFBA4C795 + tw
+				for k := 1; k <= 3; k++ {
+					for d := -1; d <= 1; d++ {
+						_, L := c09Boundary(seed, k, d)
+						it := fmt.Sprintf("bd%x_%d_%d", seed, k, d+1)
+						for _, pre := range []int{0, 0xff} {
+							cfg := c09Config{Bytes: L, Prefill: pre, HashFuncs: fn + 1, Tweak: tw, Flags: 0}
+							for _, ops := range [][]string{{"add:" + it, "m:" + it}, {"m:" + it, "add:" + it, "m:8"}, {"add:8", "m:" + it, "add:" + it, "m:" + it}} {
+								hs = append(hs, c09History{Cfg: cfg, Ops: ops})
+							}
+						}
+					}
+				}
+			}
+		}
+		c.Space("histories over items whose hash value is exactly k x the bit count (k = 1..3) or one off, under the first / second hash function, empty and saturated filters", int64(len(hs)))
 		c.ParFor(int64(len(hs)), func(w *mc.W, i int64) {
 			w.State()
 			c09EvalHistory(w, hs[i])
